@@ -1082,3 +1082,18 @@ Proof.
     { destruct (nth_in_or_default s (v_calls r) dcall) as [H|H]; [exact (Hun r _ Hr H)|rewrite H; reflexivity]. }
     rewrite Hc. reflexivity.
 Qed.
+
+(* -------------------- calls written with `|` that the repaired rule still alters (current /repo) *)
+(* homozygous 1|1:5 is unphased by the shared writer; 0|1 without a PS key comes back as 0|1 with
+   PS = 0; a phased call on a record without ALT is unphased *)
+Theorem prephased_unrecognised_refuted :
+  (exists out, haplotagphase Fixed default_params [0;1;2;3] [mkRec 2 true true [mkCall [Some 1; Some 1] true (Some 5)]] [[]]
+               = Ok out /\ out = [mkRec 2 true true [mkCall [Some 1; Some 1] false (Some 5)]]) /\
+  (exists out, haplotagphase Fixed default_params [0;1;2;3] [mkRec 2 true false [mkCall [Some 0; Some 1] true None]] [[]]
+               = Ok out /\ out = [mkRec 2 true true [mkCall [Some 0; Some 1] true (Some 0)]]) /\
+  (exists out, haplotagphase_file Fixed default_params [0;1;2;3] true
+                 [mkRec 2 true true [mkCall [Some 0; Some 0] true (Some 5)]] [0] [[]]
+               = Ok out /\ out = [mkRec 2 true true [mkCall [Some 0; Some 0] false (Some 5)]]).
+Proof.
+  split; [|split]; eexists; (split; [vm_compute; reflexivity|reflexivity]).
+Qed.
